@@ -8,6 +8,7 @@
 //   D <hex> <hex> ...  hashes of distinct non-trivial cases since last D line
 //   X <json>           a sample plan
 //   E                  batch finished
+//   P <json>           (serve mode) narrowed explicit plan, published before a risky execution
 //   R <json>           (serve mode) result of one plan
 #pragma once
 #include "mini.hpp"
@@ -50,6 +51,8 @@ struct Engine {
 // Progress marker for crash attribution (async-signal-safe write).
 void progress(uint64_t sub);
 uint64_t current_idx();
+// Publish a narrowed, explicit form of the plan being executed (serve mode: used by the driver when the run crashes).
+void publish_plan(const MVal& plan);
 
 int worker_main(int argc, char** argv, const Engine& eng);
 
